@@ -58,6 +58,24 @@ fn pm_trim_start_std(mut s: &str, mut off: usize) -> (&str, usize, PD) {
 fn pm_trim_end_std(mut s: &str, off: usize) -> (&str, usize, PD) {
     'o: loop { for l in PM_TRIM { if let Some(r) = s.strip_suffix(l) { s = r; continue 'o } } break }
     (s, off, PD::FromEnd) }
+// ---- Parser methods (groups Parser, ParseInt, ParseInt2): what is observable of the result through the public getters
+type PErr = (usize, PD, EK);
+fn pshow1<'a>(p: konst::Parser<'a>) -> (&'a str, usize, PD) { (p.remainder(), p.start_offset(), p.parse_direction()) }
+fn pshow<'a>(r: Result<konst::Parser<'a>, konst::parsing::ParseError<'a>>) -> Result<(&'a str, usize, PD), PErr> {
+    r.map(pshow1).map_err(|e| (e.offset(), e.error_direction(), e.kind())) }
+fn pshow2<'a>(r: Result<(&'a str, konst::Parser<'a>), konst::parsing::ParseError<'a>>) -> Result<(&'a str, &'a str, usize, PD), PErr> {
+    r.map(|(x, p)| (x, p.remainder(), p.start_offset(), p.parse_direction())).map_err(|e| (e.offset(), e.error_direction(), e.kind())) }
+fn pshowv<'a, T>(r: Result<(T, konst::Parser<'a>), konst::parsing::ParseError<'a>>) -> Result<(T, &'a str, usize, PD), PErr> {
+    r.map(|(x, p)| (x, p.remainder(), p.start_offset(), p.parse_direction())).map_err(|e| (e.offset(), e.error_direction(), e.kind())) }
+// integer prefix by std: optional '-' (signed types), then the longest run of ascii digits, through str::parse
+fn parse_int_std<T: std::str::FromStr>(s: &str, off: usize, signed: bool) -> Result<(T, &str, usize, PD), PErr> {
+    let b = s.as_bytes(); let mut n = 0; if signed && b.first() == Some(&b'-') { n = 1 }
+    while n < b.len() && b[n].is_ascii_digit() { n += 1 }
+    match s[..n].parse::<T>() { Ok(v) => Ok((v, &s[n..], off + n, PD::FromStart)), Err(_) => Err((off, PD::FromStart, EK::ParseInteger)) } }
+fn parse_bool_std(s: &str, off: usize) -> Result<(bool, &str, usize, PD), PErr> {
+    if let Some(r) = s.strip_prefix("true") { Ok((true, r, off + 4, PD::FromStart)) }
+    else if let Some(r) = s.strip_prefix("false") { Ok((false, r, off + 5, PD::FromStart)) }
+    else { Err((off, PD::FromStart, EK::ParseBool)) } }
 // Parser::parse_u8 by std: the longest prefix of ascii digits through str::parse
 fn parse_u8_std(s: &str, off: usize) -> Result<(u8, &str, usize), EK> {
     let n = s.bytes().take_while(|b| b.is_ascii_digit()).count();
@@ -275,4 +293,54 @@ REPLAY.update({
                         "a0.clone().split_first_mut().map(|(x, r)| { *x = x.wrapping_add(1); r.reverse(); (*x, r.to_vec()) })"),
     "split_last_mut": ([BM], "konst::slice::split_last_mut(&mut a0.clone()[..]).map(|(x, r)| { *x = x.wrapping_add(1); r.reverse(); (*x, r.to_vec()) })",
                        "a0.clone().split_last_mut().map(|(x, r)| { *x = x.wrapping_add(1); r.reverse(); (*x, r.to_vec()) })"),
+})
+# ---- Parser methods (groups Parser, ParseInt, ParseInt2; C13, C14): a parser as `Parser::with_start_offset` builds it
+# (direction FromStart, split flag unset: the only state the public constructors give), observed through the getters;
+# the std side is the str method the property names plus the offset/direction bookkeeping of konst's documentation.
+# Whitespace trimming is std's `trim_ascii*` (the property's wording; `str::trim` also removes Unicode whitespace).
+# An empty pattern is outside the comparison (std's `split_once("")`/`trim_matches("")` have their own conventions).
+_E = "a1.is_empty()"
+REPLAY.update({
+    "Parser.fn_start_offset": ([P], "a0.start_offset()", "a0_off"),
+    "Parser.fn_end_offset": ([P], "a0.end_offset()", "a0_off + a0_s.len()"),
+    "Parser.fn_is_empty": ([P], "a0.is_empty()", "a0_s.is_empty()"),
+    "Parser.fn_len": ([P], "a0.len()", "a0_s.len()"),
+    "Parser.fn_remainder": ([P], "a0.remainder()", "a0_s"),
+    "Parser.skip": ([P, U], "pshow1(a0.skip(a1))",
+                    "{ let mut n = a1.min(a0_s.len()); while !a0_s.is_char_boundary(n) { n += 1 } (&a0_s[n..], a0_off + n, PD::FromStart) }"),
+    "Parser.skip_back": ([P, U], "pshow1(a0.skip_back(a1))",
+                         "{ let mut n = a0_s.len().saturating_sub(a1); while !a0_s.is_char_boundary(n) { n -= 1 } (&a0_s[..n], a0_off, PD::FromEnd) }"),
+    "Parser.strip_prefix": ([P, S], "pshow(a0.strip_prefix(a1))",
+                            "match a0_s.strip_prefix(a1) { Some(r) => Ok((r, a0_off + a1.len(), PD::FromStart)), None => Err((a0_off, PD::FromStart, EK::Strip)) }"),
+    "Parser.strip_suffix": ([P, S], "pshow(a0.strip_suffix(a1))",
+                            "match a0_s.strip_suffix(a1) { Some(r) => Ok((r, a0_off, PD::FromEnd)), None => Err((a0_off + a0_s.len(), PD::FromEnd, EK::Strip)) }"),
+    "Parser.trim": ([P], "pshow1(a0.trim())", "{ let t = a0_s.trim_ascii_start(); (t.trim_ascii_end(), a0_off + (a0_s.len() - t.len()), PD::FromBoth) }"),
+    "Parser.trim_start": ([P], "pshow1(a0.trim_start())", "{ let t = a0_s.trim_ascii_start(); (t, a0_off + (a0_s.len() - t.len()), PD::FromStart) }"),
+    "Parser.trim_end": ([P], "pshow1(a0.trim_end())", "(a0_s.trim_ascii_end(), a0_off, PD::FromEnd)"),
+    "Parser.trim_matches": ([P, S], "pshow1(a0.trim_matches(a1))",
+                            "{ let t = a0_s.trim_start_matches(a1); (t.trim_end_matches(a1), a0_off + (a0_s.len() - t.len()), PD::FromBoth) }", _E),
+    "Parser.trim_start_matches": ([P, S], "pshow1(a0.trim_start_matches(a1))",
+                                  "{ let t = a0_s.trim_start_matches(a1); (t, a0_off + (a0_s.len() - t.len()), PD::FromStart) }", _E),
+    "Parser.trim_end_matches": ([P, S], "pshow1(a0.trim_end_matches(a1))", "(a0_s.trim_end_matches(a1), a0_off, PD::FromEnd)", _E),
+    "Parser.find_skip": ([P, S], "pshow(a0.find_skip(a1))",
+                         "match a0_s.find(a1) { Some(i) => Ok((&a0_s[i + a1.len()..], a0_off + i + a1.len(), PD::FromStart)), None => Err((a0_off, PD::FromStart, EK::Find)) }"),
+    "Parser.rfind_skip": ([P, S], "pshow(a0.rfind_skip(a1))",
+                          "match a0_s.rfind(a1) { Some(i) => Ok((&a0_s[..i], a0_off, PD::FromEnd)), None => Err((a0_off + a0_s.len(), PD::FromEnd, EK::Find)) }", _E),
+    "Parser.split": ([P, S], "pshow2(a0.split(a1))",
+                     "match a0_s.split_once(a1) { Some((b, a)) => Ok::<_, PErr>((b, a, a0_off + (a0_s.len() - a.len()), PD::FromStart)), "
+                     "None => Ok((a0_s, &a0_s[a0_s.len()..], a0_off + a0_s.len(), PD::FromStart)) }", _E),
+    "Parser.rsplit": ([P, S], "pshow2(a0.rsplit(a1))",
+                      "match a0_s.rsplit_once(a1) { Some((b, a)) => Ok::<_, PErr>((a, b, a0_off, PD::FromEnd)), None => Ok((a0_s, &a0_s[..0], a0_off, PD::FromEnd)) }", _E),
+    "Parser.split_terminator": ([P, S], "pshow2(a0.split_terminator(a1))",
+                                "if a0_s.is_empty() { Err((a0_off, PD::FromStart, EK::DelimiterNotFound)) } else { match a0_s.split_once(a1) { "
+                                "Some((b, a)) => Ok((b, a, a0_off + (a0_s.len() - a.len()), PD::FromStart)), None => Err((a0_off, PD::FromStart, EK::DelimiterNotFound)) } }", _E),
+    "Parser.rsplit_terminator": ([P, S], "pshow2(a0.rsplit_terminator(a1))",
+                                 "if a0_s.is_empty() { Err((a0_off, PD::FromEnd, EK::DelimiterNotFound)) } else { match a0_s.rsplit_once(a1) { "
+                                 "Some((b, a)) => Ok((a, b, a0_off, PD::FromEnd)), None => Err((a0_off + a0_s.len(), PD::FromEnd, EK::DelimiterNotFound)) } }", _E),
+    "Parser.split_keep": ([P, S], "pshow2(a0.split_keep(a1))",
+                          "match a0_s.find(a1) { Some(i) => Ok::<_, PErr>((&a0_s[..i], &a0_s[i..], a0_off + i, PD::FromStart)), "
+                          "None => Ok((a0_s, &a0_s[a0_s.len()..], a0_off + a0_s.len(), PD::FromStart)) }", _E),
+    **{f"Parser.parse_{t}": ([P], f"pshowv(a0.parse_{t}())", f"parse_int_std::<{t}>(a0_s, a0_off, {'true' if t[0] == 'i' else 'false'})", "a0_s.starts_with('+')")
+       for t in ("u8", "u16", "u32", "u64", "u128", "usize", "i8", "i16", "i32", "i64", "i128", "isize")},
+    "Parser.parse_bool": ([P], "pshowv(a0.parse_bool())", "parse_bool_std(a0_s, a0_off)"),
 })
